@@ -9,7 +9,8 @@ import z3
 
 from .vals import (VInt, VBool, VNone, NONE, VObj, VTup, VRef, VExc, HList, HDict, HRec, parse_type,
                    fresh_name, T_ANY)
-from .state import State, Obligation, Unsupported, ContractError, fresh_val, discharge, empty_hlist
+from .state import (State, Obligation, Unsupported, ContractError, fresh_val, discharge, discharge_many,
+                    empty_hlist)
 from .engine import EngineBase, exc_isinstance, EXC_PARENT
 from .exprs import ExprMixin
 from .stmts import StmtMixin, loops_in_order
@@ -111,12 +112,7 @@ class Engine(ExprMixin, StmtMixin, CallMixin, EngineBase):
             else:
                 raise Unsupported("%s escapes %s" % (kind, qual))
         ax = self.all_axioms()
-        for ob in self.obligations:
-            if ob.status is None:
-                if ob.kind == 'canary':
-                    discharge(ax, ob, 1500, use_cvc5=False)
-                else:
-                    discharge(ax, ob, self.timeout_ms)
+        discharge_many(ax, self.obligations, self.timeout_ms, self.jobs)
         return self.obligations
 
     def prove_lemma(self, name, vc, axiom, props=()):
